@@ -73,5 +73,5 @@ MANIFEST = dict(
                 "(C15_pdr_model_error_any_position, _cmd_failure_any_position, _unknown_any_position, _verdict_intact, _log_complete; "
                 "C15_pdr_model_propagates, _unknown).  Tie to /repo: real bmc()/pdr() runs against z3 behind a fault-injecting "
                 "proxy, every response point x every fault kind, compared with the extracted model on the recorded bytes."),
-    level_note="Trusted: Coq kernel; hand-written model tied by differential execution; shim + watchdog + OCaml oracle. Repaired in /repo through this check: spin on end-of-stream inside an open reply, error-message slice panics/mangles, '(' inside a message blocks, parser todo!s, unknown answers in bmc. Open finding: a multi-line error message arrives with a blank after each line break (repair: patches/0019-fix-read-response-no-extra-blank.diff, model variant Fix2; after it is committed in /repo flip repo_reader in ocaml/driver/c15.ml to Fix2 and turn the finding line into a fixed: line). Blocking on a LIVE solver whose reply is lexically open is the documented behaviour (C15_blocked_only_on_open_reply).",
+    level_note="Trusted: Coq kernel; hand-written model tied by differential execution; shim + watchdog + OCaml oracle. Repaired in /repo through this check: spin on end-of-stream inside an open reply, error-message slice panics/mangles, '(' inside a message blocks, parser todo!s, unknown answers in bmc. the blank inserted after every line break of a multi-line reply (/repo 343f88a, model variant Fix2 = /repo). No open finding. Blocking on a LIVE solver whose reply is lexically open is the documented behaviour (C15_blocked_only_on_open_reply).",
 )
